@@ -96,17 +96,47 @@ def load_strutils(repo):
         sys.modules.update(saved)
 
 
-def render(alts):
+def python_tables():
+    """The tables of the running CPython that the model of the code relies on, probed over EVERY code point /
+    byte value (not read from documentation): which characters str.splitlines / bytes.splitlines break at, which
+    ones str.lstrip / bytes.lstrip remove, which ones json.loads skips around a document."""
+    import json
+    str_breaks = [cp for cp in range(0x110000) if len(("a" + chr(cp) + "b").splitlines()) == 2]
+    bytes_breaks = [b for b in range(256) if len((b"a" + bytes([b]) + b"b").splitlines()) == 2]
+    str_space = [cp for cp in range(0x110000) if (chr(cp) + "x").lstrip() == "x"]
+    bytes_space = [b for b in range(256) if (bytes([b]) + b"x").lstrip() == b"x"]
+
+    def json_ws(cp):
+        try:
+            return json.loads(chr(cp) + "1" + chr(cp)) == 1
+        except ValueError:
+            return False
+    json_space = [cp for cp in range(0x110000) if json_ws(cp)]
+    # \r\n is one break, \n\r two
+    crlf_one = ("a\r\nb".splitlines() == ["a", "b"] and b"a\r\nb".splitlines() == [b"a", b"b"]
+                and "a\n\rb".splitlines() == ["a", "", "b"])
+    return {"gen_py_str_breaks": str_breaks, "gen_py_bytes_breaks": bytes_breaks, "gen_py_str_space": str_space,
+            "gen_py_bytes_space": bytes_space, "gen_py_json_space": json_space}, crlf_one
+
+
+def render(alts, tables=None, crlf_one=True):
     def lit(a):
         return "[" + "; ".join("%d%%N" % c for c in a) + "]"
-    return ("(* GENERATED by harness/translators/c19_breaks.py from boltons/strutils.py: _line_ending_re *)\n"
-            "From Boltons Require Import Lib.Prelude.\n"
-            "Definition gen_breaks : list (list N) :=\n  [" + ";\n   ".join(lit(a) for a in alts) + "].\n")
+    out = ("(* GENERATED by harness/translators/c19_breaks.py from boltons/strutils.py: _line_ending_re *)\n"
+           "From Boltons Require Import Lib.Prelude.\n"
+           "Definition gen_breaks : list (list N) :=\n  [" + ";\n   ".join(lit(a) for a in alts) + "].\n")
+    if tables is not None:
+        out += "(* probed on the running interpreter over all code points / byte values *)\n"
+        for name in sorted(tables):
+            out += "Definition %s : list N := %s.\n" % (name, lit(tables[name]))
+        out += "Definition gen_py_crlf_is_one_break : bool := %s.\n" % ("true" if crlf_one else "false")
+    return out
 
 
 def translate(repo):
     mod = load_strutils(repo)
-    return render(alternatives(mod._line_ending_re))
+    tables, crlf_one = python_tables()
+    return render(alternatives(mod._line_ending_re), tables, crlf_one)
 
 
 def selftest():
